@@ -234,7 +234,7 @@ func c14Apply(r *Rand, g *c14Graph, mask int) {
 	if has(c14NoSurname) {
 		for k := times(); k > 0; k-- {
 			p := g.indis[r.Intn(len(g.indis))]
-			v := r.Pick([]string{"Kid", "", "  ", "/", "//", "/ /", "a/b", "a/b/c/d", "Bob //", "Mononym  Two"})
+			v := r.Pick([]string{"Kid", "", "  ", "/", "//", "/ /", "a/b", "a/b/c/d", "Bob //", "Mononym  Two", "Five     Spaces /Sur      name/"})
 			if len(p.names) == 0 {
 				p.names = []string{v}
 			} else {
@@ -716,6 +716,10 @@ var c14Queries = []string{
 	`.Individuals | { spouses: .Spouses, parents: .Parents, families: .Families }`,
 }
 
+// filter flags of diff (they decide what FilterFlags.Filter keeps before the page asserts the kind)
+var c14FilterFlags = [][]string{nil, {"-only-vitals"}, {"-only-official", "-hide-equal"}, {"-no-events", "-no-places", "-no-sources"},
+	{"-name-format", "unmodified"}, {"-no-duplicate-names", "-no-empty-deaths"}, {"-name-format", "index", "-no-residences", "-no-censuses"}}
+
 var c14Groups = []string{"-no-individuals", "-no-places", "-no-families", "-no-surnames", "-no-sources", "-no-statistics"}
 
 func init() {
@@ -823,6 +827,39 @@ func init() {
 					map[string]string{"faults": c14MaskNames(mask), "file": text, "call": what}, "panic", "a value")
 			}
 
+			// (T1d) one place page per key of the place map, each rendered (placesMap[key] is dereferenced)
+			{
+				obs := c14Rec(func() string {
+					d2, _ := gedcom.NewDocumentFromString(text)
+					opts := &html.PublishShowOptions{ShowPlaces: true, LivingVisibility: html.LivingVisibilityShow}
+					pub := html.NewPublisher(d2, opts)
+					places := pub.Places()
+					var keys []string
+					for k := range places {
+						keys = append(keys, k)
+					}
+					sort.Strings(keys)
+					var hx []string
+					for _, k := range keys {
+						if out := c17render(html.NewPlacePage(d2, k, "", opts, nil, places)); strings.HasPrefix(out, "panic") {
+							return "panic"
+						}
+						hx = append(hx, hexs(k))
+					}
+					return c14Comma(hx)
+				})
+				req := "c14places"
+				if obs != "-" && obs != "panic" {
+					req += " " + strings.ReplaceAll(obs, ",", " ")
+				}
+				if obs != "panic" {
+					c.Tie(req, obs)
+				} else {
+					c.Oracle("", "a place page panics on a decodable file", map[string]string{"file": text}, "panic", "a page")
+				}
+				c.Eval()
+			}
+
 			// living bits for the publish prediction (real IsLiving, fresh document: Observe warmed caches)
 			living := make([]byte, len(doc.Nodes()))
 			for i, n := range doc.Nodes() {
@@ -905,8 +942,8 @@ func init() {
 					left, right = right, left
 				}
 				out := filepath.Join(tmp, fmt.Sprintf("diff-%d-%d.html", fi, v))
-				add("diff", "c14cmd diff 0 0 0 - - "+enc, out, "diff", "-left-gedcom", left, "-right-gedcom", right, "-output", out,
-					"-show", showVals[k%3], "-sort", sortVals[(k/3)%2], "-jobs", strconv.Itoa(1+k%2))
+				add("diff", "c14cmd diff 0 0 0 - - "+enc, out, append([]string{"diff", "-left-gedcom", left, "-right-gedcom", right, "-output", out},
+					append([]string{"-show", showVals[k%3], "-sort", sortVals[(k/3)%2], "-jobs", strconv.Itoa(1 + k%2)}, c14FilterFlags[k%len(c14FilterFlags)]...)...)...)
 			}
 			// query × documented examples
 			nq := 1
@@ -930,9 +967,11 @@ func init() {
 		for _, sn := range append(append([]string{}, c14OddSurn...), c14Surname...) {
 			nameVals = append(nameVals, "Ann /"+sn+"/", "/"+sn+"/", sn, "Ann  /"+sn+"  x/ Jr", "/"+sn)
 		}
+		nameVals = append(nameVals, "Ann /Sm     ith/", "Ann      /Smith/", "/     Smith/", "/Smith     /", "      ", "a       /b        c/      d",
+			"Ann /Sm      i       th/", "/  \u00a0     x/")
 		nameVals = append(nameVals, "", " ", "/", "//", "/ /", "a/b/c/d", "  /  Two  Spaces  /", "x /\u00a0nbsp/", "\xff/\xfe/", "/\xc3/", "Kid", "A /b/ /c/")
 		for k := c.N(200, 5000); k > 0; k-- {
-			alphabet := []string{"/", " ", "  ", "a", "Z", "é", "K", "İ", "1", "#", "\u00a0", "\xff", "-"}
+			alphabet := []string{"/", " ", "  ", "     ", "        ", "a", "Z", "é", "K", "İ", "1", "#", "\u00a0", "\xff", "-"}
 			var b strings.Builder
 			for j := c.R.Intn(7); j > 0; j-- {
 				b.WriteString(c.R.Pick(alphabet))
@@ -954,6 +993,63 @@ func init() {
 			if obs == "panic" {
 				c.Oracle("", "Surname / GetIndexLetters panics on a NAME value", map[string]string{"name": v}, "panic", "a letter")
 			}
+		}
+
+		// ---- (T1c) which events IndividualDates shows, which date EventDate writes
+		evLabel := regexp.MustCompile(`<em>([a-z]+)\.</em> (\d+)`)
+		for nb := 0; nb < 3; nb++ {
+			for nbap := 0; nbap < 3; nbap++ {
+				for nd := 0; nd < 3; nd++ {
+					for nbu := 0; nbu < 3; nbu++ {
+						var b strings.Builder
+						b.WriteString("0 @I1@ INDI\n")
+						for _, e := range []struct {
+							tag string
+							n   int
+						}{{"BIRT", nb}, {"BAPM", nbap}, {"DEAT", nd}, {"BURI", nbu}} {
+							for i := 0; i < e.n; i++ {
+								fmt.Fprintf(&b, "1 %s\n2 DATE %d\n", e.tag, 1000+i) // year 1000+i marks the i-th event
+							}
+						}
+						text := b.String()
+						obs := c14Rec(func() string {
+							doc, _ := gedcom.NewDocumentFromString(text)
+							out := c17render(html.NewIndividualDates(doc.Individuals()[0], html.LivingVisibilityShow))
+							var ls []string
+							for _, m := range evLabel.FindAllStringSubmatch(out, -1) {
+								y, _ := strconv.Atoi(m[2])
+								ls = append(ls, fmt.Sprintf("%s%d", m[1], y-1000))
+							}
+							return c14Comma(ls)
+						})
+						c.Tie(fmt.Sprintf("c14evd %d %d %d %d", nb, nbap, nd, nbu), obs)
+						c.Eval()
+						if obs == "panic" {
+							c.Oracle("", "IndividualDates panics", map[string]string{"file": text}, "panic", "dates")
+						}
+					}
+				}
+			}
+		}
+		for n := 0; n < 4; n++ {
+			n := n
+			obs := c14Rec(func() string {
+				var ds gedcom.DateNodes
+				for i := 0; i < n; i++ {
+					ds = append(ds, gedcom.NewDateNode(strconv.Itoa(1000+i)))
+				}
+				out := c17render(html.NewEventDate("x.", ds))
+				if m := regexp.MustCompile(`</em> (\d+)`).FindStringSubmatch(out); m != nil {
+					y, _ := strconv.Atoi(m[1])
+					return strconv.Itoa(y - 1000)
+				}
+				if out == "" {
+					return "-"
+				}
+				return out
+			})
+			c.Tie(fmt.Sprintf("c14evdate %d", n), obs)
+			c.Eval()
 		}
 
 		// ---- run the commands in parallel child processes
@@ -1012,6 +1108,7 @@ func init() {
 				c.Tie(run.model, cls)
 			}
 		}
+		c14ReportSites(c)
 		c.Notes = append(c.Notes, fmt.Sprintf("%d files, %d command runs of the real cmd/gedcom binary (built from the tree under test), slowest %.2fs", len(masks), len(runs), slowest.Seconds()))
 		c.Untied = append(c.Untied, "page components of html/ that do not index file-derived lists, the q evaluator (C15) and the similarity arithmetic behind diff are covered by execution (oracle S) only, not by the model")
 	}
